@@ -11,7 +11,7 @@ CLAIMED = {
    technique="deterministic simulation: seeded repository histories (real git, skewed actor clocks, benign git-proxy perturbations) judged against a reference model",
    text=("Seeded history simulation: developer actors with skewed clocks build a real repository with the real git (commit / branch / checkout / "
          "detach / merge incl. octopus and criss-cross / ff / orphan roots / tag light+annotated+nested, on tree objects, sibling tags sharing one X.Y.Z / delete / "
-         "reset / amend / 17 work-tree states incl. renames, type changes, odd file names, files named like refs / pack-refs / gc); the real "
+         "reset / amend / 18 work-tree states incl. renames, type changes, odd file names, files named like refs, a submodule dirty only inside its own work tree / pack-refs / gc); the real "
          "zerv binary, reaching git only through a tracing and perturbing proxy and reading a simulated wall clock, is observed with "
          "--output-format zerv and every reported fact (base tag nearest + maximal, release numbers, distance, dirty, branch, hashes, times, "
          "no-valid-tag failure) is compared with a small executable reference model that knows nothing about git commands; metamorphic "
